@@ -40,7 +40,9 @@ def scenario(ex, path, model):
             if raised is not None:
                 c["raises"] = concretize(raised.exc, model, st)
             elif "should" in e.d:
-                c["decision"] = {"should": bool(z3.is_true(ev(model, e.d["should"]))), "delay": ev(model, e.d["delay"]).as_long()}
+                dv = ev(model, e.d["delay"])
+                c["decision"] = {"should": bool(z3.is_true(ev(model, e.d["should"]))), "delay": dv.as_long() if z3.is_int_value(dv) else float(dv.as_fraction()) if z3.is_rational_value(dv) else 0,
+                                 "delay_none": bool(e.d.get("delay_none") is not None and z3.is_true(ev(model, e.d["delay_none"])))}
             elif "scripted_bool" in e.d:
                 c["value"] = bool(z3.is_true(ev(model, e.d["scripted_bool"])))
             elif e.name == "SerDes.serialize":
